@@ -30,7 +30,12 @@ def expand_dfs(
         (node, successors) = stack.pop()
         if successors is None:
             # Only allow successor computation if size limit hasn't been exceeded.
-            if (size_limit is not None) and (len(sd) >= size_limit):
+            # (Visiting a node that is already expanded does not grow the diagram.)
+            if (
+                (size_limit is not None)
+                and (len(sd) >= size_limit)
+                and not sd.node_data(node)["expanded"]
+            ):
                 # Size limit reached.
                 return False
 
